@@ -6,6 +6,7 @@ import EpdVerif.Drivers.Epd1in54
 import EpdVerif.Drivers.Epd2in9
 import EpdVerif.Drivers.Epd2in7_v2
 import EpdVerif.Drivers.Epd1in54_v2
+import EpdVerif.Drivers.Epd7in3f
 /-!
 # C07 per panel: `clear_frame` for EVERY background colour from ANY controller state (session 4)
 
@@ -353,5 +354,51 @@ theorem epd1in54_v2_clear_uniform (f : Feat) (d : DState) (s : Ssd) (hu : s.asle
   · have := k.2.1 k' hk'
     rw [e1, Nat.zero_add, Nat.zero_add] at this
     exact this
+
+/-! ## ACeP (one 4-bpp plane, refresh bracket inside clear_frame) -/
+
+/-- power on, refresh, power off after a data block: no plane is touched -/
+theorem uc_refresh_bracket_keeps_planes (x : Uc) (r o : List UInt8) (hx : x.asleep = false) :
+    (x.run [Blk.c 0x04 [], .c 0x12 r, .c 0x02 o]).p1 = x.p1 ∧ (x.run [Blk.c 0x04 [], .c 0x12 r, .c 0x02 o]).p2 = x.p2 ∧
+    (x.run [Blk.c 0x04 [], .c 0x12 r, .c 0x02 o]).epis = x.epis := by
+  simp (config := {decide := true}) only [Uc.run, List.foldl, Uc.feed, Uc.regStep, hx, ↓reduceIte, Bool.false_eq_true, and_false, and_self]
+
+/-- one complete fill of the first plane, then the refresh bracket -/
+theorem uc_fill_then_bracket (u : Uc) (v : UInt8) (n : Nat) (r o : List UInt8) (hu : u.asleep = false) (hp : u.partialOn = false)
+    (hn : n = u.p1.size) :
+    (u.run [Blk.c 0x10 (List.replicate n v), .c 0x04 [], .c 0x12 r, .c 0x02 o]).p1.toList = List.replicate n v ∧
+    ((u.run [Blk.c 0x10 (List.replicate n v), .c 0x04 [], .c 0x12 r, .c 0x02 o]).epis.head?.map fun e => (e.plane, e.count, e.stored))
+      = some (0, n, n) := by
+  have d1 := dtm_full u 0 (List.replicate n v) hp (by rw [List.length_replicate]; exact hn)
+  simp only [↓reduceIte] at d1
+  have st : u.run [Blk.c 0x10 (List.replicate n v), .c 0x04 [], .c 0x12 r, .c 0x02 o]
+      = (u.dtm 0 (List.replicate n v)).run [Blk.c 0x04 [], .c 0x12 r, .c 0x02 o] := by
+    simp (config := {decide := true}) only [Uc.run, List.foldl, Uc.feed, hu, ↓reduceIte, Bool.false_eq_true]
+  have k := uc_refresh_bracket_keeps_planes (u.dtm 0 (List.replicate n v)) r o (by rw [d1.2.2.2.2.2.1]; exact hu)
+  rw [st, k.1, k.2.2, d1.1, d1.2.2.1]
+  refine ⟨rfl, ?_⟩
+  simp only [Option.map_some, List.length_replicate]
+
+open Drivers.Epd7in3f in
+theorem epd7in3f_clear_blocks (f : Feat) (d : DState) :
+    blocksOf ((prog f d .clear).getD []) =
+      [.c 0x10 (List.replicate (Gen.Epd7in3f.WIDTH * Gen.Epd7in3f.HEIGHT / 2) (colorsByte d.bg d.bg) ++ []),
+       .c 0x04 [], .c 0x12 [0x00], .c 0x02 [0x00]] := rfl
+
+open Drivers.Epd7in3f in
+/-- **epd7in3f `clear_frame`, EVERY background colour (all eight, and any other index), any awake controller
+    outside partial mode**: the 4-bpp plane ends uniformly equal to the colour's packed nibble pair, written
+    by exactly one block of the plane's size -/
+theorem epd7in3f_clear_uniform (f : Feat) (d : DState) (u : Uc) (hu : u.asleep = false) (hp : u.partialOn = false)
+    (h1 : u.p1.size = Gen.Epd7in3f.WIDTH * Gen.Epd7in3f.HEIGHT / 2) :
+    (u.run (blocksOf ((prog f d .clear).getD []))).p1.toList
+      = List.replicate (Gen.Epd7in3f.WIDTH * Gen.Epd7in3f.HEIGHT / 2) (colorsByte d.bg d.bg) ∧
+    ((u.run (blocksOf ((prog f d .clear).getD []))).epis.head?.map fun e => (e.plane, e.count, e.stored))
+      = some (0, Gen.Epd7in3f.WIDTH * Gen.Epd7in3f.HEIGHT / 2, Gen.Epd7in3f.WIDTH * Gen.Epd7in3f.HEIGHT / 2) := by
+  rw [epd7in3f_clear_blocks, List.append_nil]
+  exact uc_fill_then_bracket u _ _ [0x00] [0x00] hu hp h1.symm
+
+/-- the plane size in the hypothesis is the panel's: 800 x 480 at 4 bpp -/
+example : Gen.Epd7in3f.WIDTH * Gen.Epd7in3f.HEIGHT / 2 = 192000 := by decide
 
 end EpdVerif.Props.C07
